@@ -30,3 +30,7 @@ def run(ctx, name="C04"):
         # certificates, foreign-signed, other algorithms) against the verifier and over real sockets - C03's harness
         import props.C03 as c03
         c03.run(ctx, with_registry=False)
+        # what a peer receives is what was addressed to it: the frame of a call which gave up while it was still being written
+        # is not touched by the calls made after it, to whichever peer (real sockets; also on one processor, collector off)
+        import props.C16 as c16
+        c16.inflight(ctx, "C04")
